@@ -10,13 +10,41 @@ use crate::encode::{conformant_hdr_tag, conformant_tag, hdr, hdr_end_tag, mbi};
 use crate::exercise_hdr::{exercise_hdr, HdrOpts};
 use crate::exercise_mbi::{exercise_mbi, MbiOpts};
 
+/// The decoy boot information: every kind once; the ELF-sections tag has two
+/// 64-byte headers in use whose names resolve in the harness-owned buffer.
+pub fn decoy_region() -> &'static Aligned {
+    static R: std::sync::OnceLock<&'static Aligned> = std::sync::OnceLock::new();
+    R.get_or_init(|| {
+        let base = crate::elfnames::install().unwrap_or(0x10_0000) as u64;
+        let mut tags: Vec<Vec<u8>> = (1u32..=21).filter(|k| *k != 9).map(|k| conformant_tag(k, 0xDEC0 + k as u64, 2, 0x0201_0000 | k)).collect();
+        let mut body = vec![0u8; 12];
+        crate::bytes::put32(&mut body, 0, 2);
+        crate::bytes::put32(&mut body, 4, 64);
+        crate::bytes::put32(&mut body, 8, 1);
+        body.extend(crate::realistic::elf_section_header(64, 1, 1, 6, base, 0x40, 1, 0xDEC0, 0));
+        body.extend(crate::realistic::elf_section_header(64, 7, 3, 2, base, crate::elfnames::names().len() as u64, 0, 0xDEC0, 1));
+        tags.insert(8, crate::encode::tag(9, &body));
+        let region = mbi(&tags, 0, 0, true);
+        Box::leak(Box::new(Aligned::new(&region)))
+    })
+}
+
+/// The loaded decoy (None if it does not load - then nothing is related to it).
+pub fn decoy_mbi() -> Option<&'static multiboot2::BootInformation<'static>> {
+    static M: std::sync::OnceLock<Option<usize>> = std::sync::OnceLock::new();
+    let p = M.get_or_init(|| {
+        let a = decoy_region();
+        let m = crate::panics::catch(|| unsafe { multiboot2::BootInformation::load(a.as_ptr().cast()) })?.ok()?;
+        Some(Box::leak(Box::new(m)) as *const multiboot2::BootInformation<'static> as usize)
+    });
+    p.map(|p| unsafe { &*(p as *const multiboot2::BootInformation<'static>) })
+}
+
 /// Returns the two decoy transcripts (rendered), for callers that want to
 /// compare a later repetition with the first run.
 pub fn warmup() -> (String, String) {
     crate::elfnames::install();
-    let tags: Vec<Vec<u8>> = (1u32..=21).map(|k| conformant_tag(k, 0xDEC0 + k as u64, 2, 0x0201_0000 | k)).collect();
-    let region = mbi(&tags, 0, 0, true);
-    let a: &'static Aligned = Box::leak(Box::new(Aligned::new(&region)));
+    let a = decoy_region();
     let t1 = unsafe { exercise_mbi(a.as_ptr(), &MbiOpts { debug: true, max_steps: 1 << 12, typed_all: true }) }.render();
     let mut htags: Vec<Vec<u8>> = (1u32..=10).map(|k| conformant_hdr_tag(k, 0xDEC0 + k as u64, 3, k)).collect();
     htags.push(hdr_end_tag());
